@@ -11,6 +11,7 @@ from . import rules_struct as S
 from . import rules_tile as T
 from . import rules_orient as OR
 from . import rules_more as M
+from . import rules_more2 as M2
 
 
 class Spec:
@@ -96,6 +97,9 @@ def c01(repo, col):
     S.optional_zero(repo, col)
     S.rgb_split_idiom(repo, col)
     M.scaling_composition(repo, col)
+    M2.loop_error_discipline(repo, col)
+    M2.file_accessor_hazards(repo, col)
+    M2.axis_arg_family(repo, col, ["volume_reader"])
     col.floor("E-TILE", 6)
     col.floor("E-AXIS", 22)
     col.floor("E-DTYPE.pair", 25)
@@ -123,6 +127,7 @@ def c02(repo, col):
     A.check_modules(repo, col, ["_compressed_segmentation", "chunk_encoding"])
     O.cseg_field_guard(repo, col)
     S.io_pass_through(repo, col)
+    M2.declared_block_size(repo, col)
     col.floor("E-SPEC.cseg", 15)
     col.floor("E-AXIS", 20)
 
@@ -149,6 +154,7 @@ def c03(repo, col):
     X.decoded_shape(repo, col)
     S.read_config_independence(repo, col)
     SP.cseg_layout(repo, col)
+    M2.declared_block_size(repo, col)
     col.floor("E-BOUND.validator", 6)
     col.floor("E-ORDER", 4)
     col.floor("E-SIB.tables", 4)
@@ -175,6 +181,9 @@ def c04(repo, col):
     O.shard_index_last(repo, col)
     S.minishard_encode_before_park(repo, col)
     M.shard_close_sequence(repo, col)
+    M2.shard_lifecycle(repo, col)
+    M2.swapped_arguments(repo, col)
+    M2.shard_name_format_spec(repo, col)
     col.floor("E-SPEC.sharded", 9)
     col.floor("E-ORDER.index-last", 2)
 
@@ -210,6 +219,9 @@ def c05(repo, col):
     S.minishard_encode_before_park(repo, col)
     O.exit_order(repo, col)
     M.shard_close_sequence(repo, col)
+    M2.shard_lifecycle(repo, col)
+    M2.module_level_caches(repo, col, sh)
+    M2.swapped_arguments(repo, col)
     col.floor("E-PROTO", 7)
     col.floor("E-ORDER", 7)
     col.floor("E-ATTR.populated", 3)
@@ -243,6 +255,8 @@ def c06(repo, col):
     D.averaging_accumulator(repo, col)
     S.downscaler_templates(repo, col)
     M.pyramid_factor_templates(repo, col)
+    M2.loop_error_discipline(repo, col)
+    M2.axis_arg_family(repo, col, ["dyadic_pyramid"])
     A.check_modules(repo, col, ["dyadic_pyramid", "downscaling"])
     col.floor("E-TILE", 15)
     col.floor("E-AXIS", 50)
@@ -294,6 +308,8 @@ def c09(repo, col):
     SP.routing_bits(repo, col)
     SP.morton_loop(repo, col)
     SP.sharded_layout(repo, col, parts=("name",))
+    M2.shard_name_format_spec(repo, col)
+    M2.swapped_arguments(repo, col)
     A.check_modules(repo, col, ["sharded_base"])
     col.floor("E-BOUND", 3)
     col.floor("E-SPEC", 10)
@@ -369,6 +385,9 @@ def c12(repo, col):
     SB.overwrite_and_gzip(repo, col)
     S.read_config_independence(repo, col)
     SB.accessor_options_plumbing(repo, col)
+    M2.file_accessor_hazards(repo, col)
+    M2.no_content_cache(repo, col)
+    M2.strip_charset_misuse(repo, col)
     A.check_modules(repo, col, ["file_accessor", "http_accessor"])
     col.floor("E-SIB", 12)
     col.floor("E-ATTR", 4)
@@ -402,6 +421,9 @@ def c13(repo, col):
     O.minishard_drain(repo, col)
     O.exit_order(repo, col)
     M.copy_info_handling(repo, col)
+    M2.loop_error_discipline(repo, col)
+    M2.shard_lifecycle(repo, col)
+    M2.axis_arg_family(repo, col, ["scripts.convert_chunks"])
     col.floor("E-TILE", 6)
     col.floor("E-ORDER", 7)
 
@@ -428,6 +450,9 @@ def c14(repo, col):
     SB.http_content_after_status(repo, col)
     SB.dispatch_agreement(repo, col)
     M.sharded_http_urls(repo, col)
+    M2.no_content_cache(repo, col)
+    M2.module_level_caches(repo, col, sh)
+    M2.strip_charset_misuse(repo, col)
     S.empty_minishard_guard(repo, col)
     A.check_modules(repo, col, ["http_accessor"])
     col.floor("E-EXC.B", 12)
@@ -459,6 +484,8 @@ def c15(repo, col):
                   "slices_to_raw_chunks", "input_coords")
     B.negative_step_slices(repo, col)
     A.check_modules(repo, col, ["scripts.slices_to_precomputed"])
+    M2.axis_arg_family(repo, col, ["scripts.slices_to_precomputed"])
+    M2.loop_error_discipline(repo, col)
     S.inplace_ownership(repo, col)
     col.floor("E-TABLE.orientation", 7)
     col.floor("E-ORIENT", 24)
@@ -479,6 +506,7 @@ def c16(repo, col):
     S.unit_literals(repo, col, UNITS_INFO)
     SP.half_voxel(repo, col)
     M.compact_json(repo, col)
+    M2.cosines_vectorised(repo, col)
     col.floor("E-SPEC.transform", 4)
     col.floor("E-TABLE.units", 2)
 
@@ -503,6 +531,8 @@ def c17(repo, col):
                                  "mesh_file_to_precomputed", "points", 1e6)])
     M.vtk_grammar(repo, col)
     M.mesh_conversion(repo, col)
+    M2.mesh_unit_unconditional(repo, col)
+    M2.loop_error_discipline(repo, col)
     col.floor("E-SPEC.mesh", 9)
     col.floor("E-EXC.A", 4)
 
@@ -524,6 +554,8 @@ def c18(repo, col):
     SB.accessor_io_errors(repo, col)
     SB.http_content_after_status(repo, col)
     O.shard_index_last(repo, col)
+    M2.file_accessor_hazards(repo, col)
+    M2.loop_error_discipline(repo, col)
     col.floor("E-EXC.B", 15)
     col.floor("E-ORDER.index-last", 2)
 
@@ -546,6 +578,8 @@ def c19(repo, col):
     S.exit_status(repo, col)
     SB.overwrite_and_gzip(repo, col)
     M.new_dataset_defaults(repo, col)
+    M2.loop_error_discipline(repo, col)
+    M2.file_accessor_hazards(repo, col)
     S.io_pass_through(repo, col)
     scripts = [m.short for m in repo.modules.values()
                if m.short.startswith("scripts.") and m.short != "scripts"]
@@ -566,6 +600,7 @@ def c19(repo, col):
       ["readable_count's digit / width promise (arithmetic over format())"])
 def c20(repo, col):
     T.count_formula(repo, col)
+    M2.stats_accumulation_nesting(repo, col)
     S.iec_prefixes(repo, col)
     S.shared_mutable_state(repo, col, ["scripts.scale_stats", "utils"])
     col.floor("E-TILE.stats", 2)
